@@ -221,30 +221,47 @@ def fetchPaths (S : PStore) : List String → Except DdsErr Refs
     | none => .error .missingPaths
     | some k => do let r ← fetchPaths S ps; pure ((p, k) :: r)
 
+def entryPathOf (rq : Request) (fn : Fn) : Option String :=
+  match rq.kind with
+  | .keep p => some p
+  | .direct => fn.storePath
+  | .eval => none
+
+def badEntryPath (rq : Request) (fn : Fn) : Bool :=
+  match entryPathOf rq fn with
+  | some p => !pathAbsolute p
+  | none => false
+
+/-- the analysis once the loaded-but-not-produced paths have been resolved by the store -/
+def analysisWith (m : Nat) (W : World) (rq : Request) (fn : Fn) (named : List (String × Option Sg)) (refs0 : Refs) :
+    Except DdsErr (Fn × Env × FIS × List (String × Sg)) :=
+  match analyse m W W.fuel refs0 [] fn ⟨named, none⟩ with
+  | .error e => .error e
+  | .ok (fis, _) =>
+    let fis' := match entryPathOf rq fn with
+      | some p => fis.withPath p
+      | none => fis
+    let paths := allStorePaths [] fis'
+    if nonTerminalLeaves (paths.map (fun pk => segsOf pk.1)) ≠ [] then .error .overlappingPath else
+    match bindRun fn.params (rq.args.map RVal.py) (rq.kwargs.map (fun kv => (kv.1, RVal.py kv.2))) 0 with
+    | none => .error .missingArg
+    | some env => .ok (fn, env, fis', paths)
+
 /-- the analysis part of `_eval_new_ctx`: everything before the first user function may run -/
-def analysisPhase (m : Nat) (W : World) (S : PStore) (rq : Request) : Except DdsErr (Fn × Env × FIS × List (String × Sg)) := do
-  let fn ← match W.find rq.fn with
-    | some f => pure f
-    | none => .error .objectNotFound
-  let entryPath : Option String := match rq.kind with
-    | .keep p => some p
-    | .direct => fn.storePath
-    | .eval => none
-  match entryPath with
-  | some p => if !pathAbsolute p then .error .pathNotAbsolute else pure ()
-  | none => pure ()
-  let named ← liftA (getArgCtx m fn.params rq.args rq.kwargs)
-  let (ind, _) ← indirectFn W W.fuel [] ({}, []) fn
-  let refs0 ← fetchPaths S (loadsToCheck ind)
-  let (fis, _) ← analyse m W W.fuel refs0 [] fn ⟨named, none⟩
-  let fis' := match entryPath with
-    | some p => fis.withPath p
-    | none => fis
-  let paths := allStorePaths [] fis'
-  if nonTerminalLeaves (paths.map (fun pk => segsOf pk.1)) ≠ [] then .error .overlappingPath else
-  match bindRun fn.params (rq.args.map RVal.py) (rq.kwargs.map (fun kv => (kv.1, RVal.py kv.2))) 0 with
-  | none => .error .missingArg
-  | some env => pure (fn, env, fis', paths)
+def analysisPhase (m : Nat) (W : World) (S : PStore) (rq : Request) : Except DdsErr (Fn × Env × FIS × List (String × Sg)) :=
+  match W.find rq.fn with
+  | none => .error .objectNotFound
+  | some fn =>
+    if badEntryPath rq fn then .error .pathNotAbsolute else
+    match liftA (getArgCtx m fn.params rq.args rq.kwargs) with
+    | .error e => .error e
+    | .ok named =>
+      match indirectFn W W.fuel [] ({}, []) fn with
+      | .error e => .error e
+      | .ok (ind, _) =>
+        match fetchPaths S (loadsToCheck ind) with
+        | .error e => .error e
+        | .ok refs0 => analysisWith m W rq fn named refs0
 
 def evalStep (m : Nat) (W : World) (S : PStore) (rq : Request) : Outcome :=
   match analysisPhase m W S rq with
